@@ -4,7 +4,7 @@ from ..common import run_driver_parallel, unfl
 
 RULE = ("Abstract graph = set of undirected edges; containers (nested list/tuple, dense int/float/bool, CSR/CSC/LIL/sparse array; "
         "upper-, lower-triangular or symmetric adjacency; relabelled) are refinement mappings onto it. R: every connected labelled graph on "
-        "<=4 vertices (the set MGH.tla's Init enumerates) under all 14 representations; V: random graphs <=7 vertices, random relabellings, "
+        "<=4 vertices (the set MGH.tla's Init enumerates) under all 17 representations; V: random graphs <=7 vertices, random relabellings, "
         "collections of 3..5 graphs, disconnected graphs (2..3 components, ties in size). TraceMGH.tla recomputes shortest paths, components "
         "and the exact distance from the abstract graph and requires: valid bracket under every container, identical lower bound for "
         "identical labelling, collection matrices symmetric with zero diagonal and bracketing entries, disconnected => warning + bracket for "
